@@ -39,7 +39,12 @@ type AtomFn func(cond ssa.Value) (name string, neg bool, ok bool)
 
 type PathEnum struct {
 	Atom    AtomFn
-	Outcome func(last ssa.Instruction) string // for Return/Panic
+	Outcome func(last ssa.Instruction, events []string) string // for Return/Panic
+	// Event: optional; a non-empty string is appended to the path's event list
+	Event func(ssa.Instruction) string
+	// IgnoreUnknown: explore both successors of an unrecognised condition
+	// without recording a fact (the outcome must then not depend on it)
+	IgnoreUnknown bool
 	Excl    [][2]string                       // pairs of atoms that cannot both be true
 	// BackEdge: outcome name when a path returns to a block already on it
 	BackEdge string
@@ -59,6 +64,8 @@ func (pe *PathEnum) Run(fn *ssa.Function) {
 	onPath := map[*ssa.BasicBlock]bool{}
 	facts := map[string]bool{}
 	var order []string
+	var events []string
+	seenRow := map[string]bool{}
 	var walk func(b *ssa.BasicBlock)
 	emit := func(outcome string, pos token.Pos) {
 		if len(pe.Rows) >= pe.MaxPaths {
@@ -68,7 +75,12 @@ func (pe *PathEnum) Run(fn *ssa.Function) {
 		for k, v := range facts {
 			f[k] = v
 		}
-		pe.Rows = append(pe.Rows, PathRow{Facts: f, Order: append([]string(nil), order...), Outcome: outcome, Pos: pos})
+		row := PathRow{Facts: f, Order: append([]string(nil), order...), Outcome: outcome, Pos: pos}
+		if seenRow[row.String()] {
+			return
+		}
+		seenRow[row.String()] = true
+		pe.Rows = append(pe.Rows, row)
 	}
 	consistent := func(name string, val bool) bool {
 		if v, ok := facts[name]; ok {
@@ -95,7 +107,15 @@ func (pe *PathEnum) Run(fn *ssa.Function) {
 			return
 		}
 		onPath[b] = true
-		defer func() { onPath[b] = false }()
+		nEv := len(events)
+		defer func() { onPath[b] = false; events = events[:nEv] }()
+		if pe.Event != nil {
+			for _, in := range b.Instrs {
+				if ev := pe.Event(in); ev != "" {
+					events = append(events, ev)
+				}
+			}
+		}
 		last := lastInstr(b)
 		switch x := last.(type) {
 		case *ssa.If:
@@ -110,6 +130,12 @@ func (pe *PathEnum) Run(fn *ssa.Function) {
 			}
 			name, n2, ok := pe.Atom(cond)
 			if !ok {
+				if pe.IgnoreUnknown {
+					for _, s := range b.Succs {
+						walk(s)
+					}
+					return
+				}
 				pe.Unknown = append(pe.Unknown, cond)
 				emit("?unrecognised-condition", x.Pos())
 				return
@@ -136,7 +162,7 @@ func (pe *PathEnum) Run(fn *ssa.Function) {
 		case *ssa.Jump:
 			walk(b.Succs[0])
 		case *ssa.Return, *ssa.Panic:
-			emit(pe.Outcome(last), last.Pos())
+			emit(pe.Outcome(last, events), last.Pos())
 		default:
 			emit("?unexpected-terminator", last.Pos())
 		}
@@ -172,7 +198,7 @@ func SpecEval(row PathRow, spec func(ask func(string) bool) string) (outcome str
 // CheckTable compares every extracted row with the specification and emits
 // one obligation per row. Rows are keyed by their fact string (not by
 // position).
-func CheckTable(p *Prog, r *Report, rule, fnKey string, pe *PathEnum, spec func(ask func(string) bool) string) {
+func CheckTable(p *Prog, r *Report, rule, fnKey string, pe *PathEnum, spec func(ask func(string) bool) string, accept ...func(got, want string) bool) {
 	sort.SliceStable(pe.Rows, func(i, j int) bool { return pe.Rows[i].String() < pe.Rows[j].String() })
 	for _, row := range pe.Rows {
 		key := fnKey + " path " + row.String()
@@ -183,8 +209,8 @@ func CheckTable(p *Prog, r *Report, rule, fnKey string, pe *PathEnum, spec func(
 		want, missing := SpecEval(row, spec)
 		switch {
 		case missing != "":
-			r.Bad(rule, key, p.Pos(row.Pos), fmt.Sprintf("outcome %q reached without deciding %s, which the specification needs", row.Outcome, missing))
-		case want != row.Outcome:
+			r.Unk(rule, key, p.Pos(row.Pos), fmt.Sprintf("outcome %q reached without deciding %s, which the specification consults at this point (missing test, or tests reordered: re-read and adapt the specification order)", row.Outcome, missing))
+		case want != row.Outcome && !(len(accept) > 0 && accept[0](row.Outcome, want)):
 			r.Bad(rule, key, p.Pos(row.Pos), fmt.Sprintf("specification says %q", want))
 		default:
 			r.OK(rule, key, p.Pos(row.Pos), "")
